@@ -307,6 +307,18 @@ Definition format_string (s : list N) : list N := [92; 39] ++ escape_string_lite
 Definition is_numeric (v : lval) : bool :=
   match v with VInt _ | VUInt _ | VFloat _ => true | _ => false end.
 
+Section Oracle.
+(* THE ORACLE (trusted base, stated in words):
+   [parse_float s]   = None  when strconv.ParseFloat(s, 64) returns err != nil (syntax or range), and otherwise
+                       Some of the float it returns, shown as the digits/exponent of
+                       strconv.FormatFloat(f, 'e', -1, 64): the SHORTEST decimal digits that round-trip
+                       (ties: closest to the true value), [FInf]/[FNaN] for infinities and NaN.
+   [int_to_float n]  = the float64 nearest to the non-negative integer n (round half to even), shown the same
+                       way: this is float64(uint64) for n < 2^64 and big.Float.SetInt(n).Float64() in general.
+   Which digits these are is not modelled. *)
+Variable parse_float : list N -> option fval.
+Variable int_to_float : N -> fval.
+
 (* formatExprAsString on the operand of a unary minus that is not numeric: only the LiteralString case can be
    reached inside the fragment ("-" + e.Value.(string)); arrays/tuples cannot follow a minus (LoofMinusOperand) *)
 Definition neg_as_string (v : lval) : list N :=
@@ -319,24 +331,22 @@ Definition neg_as_string (v : lval) : list N :=
 Definition array_neg_elem (v : lval) : list N :=
   match v with
   | VInt n => if n =? 0 then t_UInt64 ++ dec 0 else t_Int64 ++ [45] ++ dec n     (* negVal := -val; %d *)
-  | VUInt n => if n =? 0 then t_UInt64 ++ dec 0 else t_Int64 ++ [45] ++ dec n    (* "Int64_-%d" of the uint64 *)
+  | VUInt n =>
+      if n =? 0 then t_UInt64 ++ dec 0
+      else if n <=? two63 then t_Int64 ++ [45] ++ dec n                           (* "Int64_-%d" of the uint64 *)
+      else t_Float64 ++ format_float (fneg (int_to_float n))                      (* -float64(val) *)
   | VFloat f => t_Float64 ++ format_float (fneg f)
   | _ => neg_as_string v
   end.
 
-(* the unary-minus branch of formatNumericExpr (tuples): for a uint64 it prints -int64(val), which wraps *)
+(* the unary-minus branch of formatNumericExpr (tuples) *)
 Definition tuple_neg_elem (v : lval) : list N :=
   match v with
   | VInt n => if n =? 0 then t_UInt64 ++ dec 0 else t_Int64 ++ [45] ++ dec n
   | VUInt n =>
       if n =? 0 then t_UInt64 ++ dec 0
-      else
-        (* int64(val) = val - 2^64 for val >= 2^63; its negation is 2^64 - val, except for val = 2^63 where it
-           overflows back to -2^63 *)
-        let m := n mod two64 in
-        if m <? two63 then t_Int64 ++ [45] ++ dec m
-        else if m =? two63 then t_Int64 ++ [45] ++ dec two63
-        else t_Int64 ++ dec (two64 - m)
+      else if n <=? two63 then t_Int64 ++ [45] ++ dec n
+      else t_Float64 ++ format_float (fneg (int_to_float n))
   | VFloat f => t_Float64 ++ format_float (fneg f)
   | _ => neg_as_string v
   end.
@@ -449,18 +459,6 @@ Definition explain_literal (v : lval) : lout :=
   | VArr es => if array_is_function es then ONotLit t_fn_array else OLit (format_literal v)
   | _ => OLit (format_literal v)
   end.
-
-Section Oracle.
-(* THE ORACLE (trusted base, stated in words):
-   [parse_float s]   = None  when strconv.ParseFloat(s, 64) returns err != nil (syntax or range), and otherwise
-                       Some of the float it returns, shown as the digits/exponent of
-                       strconv.FormatFloat(f, 'e', -1, 64): the SHORTEST decimal digits that round-trip
-                       (ties: closest to the true value), [FInf]/[FNaN] for infinities and NaN.
-   [int_to_float n]  = the float64 nearest to the non-negative integer n (round half to even), shown the same
-                       way: this is float64(uint64) for n < 2^64 and big.Float.SetInt(n).Float64() in general.
-   Which digits these are is not modelled. *)
-Variable parse_float : list N -> option fval.
-Variable int_to_float : N -> fval.
 
 (* parseHexToFloat: "0x"/"0X" + big.Int.SetString(hexPart, 16) (hex digits only, at least one; a NUMBER token
    contains no sign outside a hex-float exponent) + big.Float -> float64 *)
